@@ -347,13 +347,15 @@ def _tf(col, ctx, np):
         for dt in ('uint8', 'int16', 'float32', 'float64'):
             rows = rng.randint(0, 50, (4, length)).astype(dt)
             rows[:, 0] = [0, 50, 7, 23]
-            frames = [(None, None), (slice(0, 4), None), (None, slice(1, 4)), (slice(0, 4), slice(2, 6)), ([0, 2, 3], [1, 4, 5]), (slice(0, 5), slice(1, 6)), (slice(0, 3), slice(2, 6)), (range(0, 5), [4, 3, 2, 1, 0])]
+            frames = [(None, None), (slice(0, 4), None), (None, slice(1, 4)), (slice(0, 4), slice(2, 6)), ([0, 2, 3], [1, 4, 5]), (slice(0, 5), slice(1, 6)), (slice(0, 3), slice(2, 6)), (range(0, 5), [4, 3, 2, 1, 0]),
+                      (0, None), (None, 0), (4, None), (0, 3), ([0], None), (None, [0, 1])]          # single points given as int (0 is a frame, not "no frame") and frames starting at sample 0
             for name, fn in ops.items():
                 for mode in ('raw', 'centered', 'standardized'):
                     for f1, f2 in frames:
                         e1 = f1 if f1 is not None else (f2 if f2 is not None else slice(0, length))
                         e2 = f2 if f2 is not None else (f1 if f1 is not None else slice(0, length))
                         l1 = len(_idx(e1, length)); l2 = len(_idx(e2, length))
+                        if name == 'Xcorr' and l1 == 1 and l2 == 1: continue           # the inverse real FFT of a one-bin spectrum is not defined
                         case = {'kind': 'tf', 'name': name, 'mode': mode, 'frame_1': repr(f1), 'frame_2': repr(f2), 'length': length, 'dt': dt}
                         col.evaluations += 1; col.states += 1
                         try:
